@@ -241,4 +241,19 @@ def run(F, rep):
         import c01
         c01.run(F, core.Borrowed(rep, only={'C01.V1', 'C01.V2'}))
 
+    # ------------------------------------------------------------------ E: exact child counts of token elements
+    rep.rule('C16.E1', 'the validator accepts a ci / cn token only with EXACTLY the expected number of non-comment children (1, or 3 for an e-notation cn): nonCommentChildCount is compared with == / != only, '
+                       'never with an ordering operator (with >= 3 only the first three children are looked at and trailing content such as `1.5<sep/>3<sep/>4` is accepted)')
+    n_e1 = 0
+    for g in F.funcs.values():
+        if not g.file.endswith('/validator.cpp') or g.name != 'validateMathMLElementsChildrenAndSiblings':
+            continue
+        for b in g.walk():
+            op_ = b.get('op') or b.get('opc')
+            if b.get('k') in ('Bin', 'Call') and op_ in ('==', '!=', '<', '<=', '>', '>=') and len(b.get('c', [])) == 2 and any(x.get('k') == 'Call' and x.get('fn') == 'nonCommentChildCount' for x in b['c']):
+                n_e1 += 1
+                rep.check(op_ in ('==', '!='), 'C16.E1', '%s|%s' % (g.short.split('::')[-1], render(b)[:50]), g.where(b), '%s tests `%s`: more children than expected are accepted' % (g.short, render(b)[:60]), 'exact count')
+    if n_e1 < 3:
+        raise AnalysisBroken('C16.E1: only %d comparisons of nonCommentChildCount in validator.cpp (4 confirmed)' % n_e1)
+
 
